@@ -71,8 +71,9 @@ fn edit(doc: &mut AutoCommit, rng: &mut Rng, list: &ObjId, text: &ObjId, log: &m
             }
         }
         5 | 6 if ll > 0 => {
-            // overwrite: the element stays, its winning op changes
-            let i = rng.below(ll as u64) as usize;
+            // overwrite: the element stays, its winning op changes (low indexes are favoured so that replicas
+            // overwrite the same element concurrently: conflicted elements, losers before winners)
+            let i = if rng.chance(1, 2) { rng.below(ll.min(2) as u64) as usize } else { rng.below(ll as u64) as usize };
             let v: ScalarValue = if rng.chance(1, 4) { ScalarValue::counter(rng.below(9) as i64) } else { ScalarValue::Str(rng.pick(&CHARS).to_string().into()) };
             if doc.put(list, i, v.clone()).is_ok() {
                 log.push(format!("r{} lput {} {:?}", who, i, v));
@@ -154,6 +155,7 @@ pub fn run(rng: &mut Rng, tier: &str, out: &str) -> Report {
             reps.push(f);
         }
         let mut taken: Vec<Taken> = vec![];
+        let mut cursor_heads: Vec<Vec<ChangeHash>> = vec![];
         let mut head_sets: Vec<Vec<ChangeHash>> = vec![reps[0].get_heads()];
         let steps = if thorough { rng.range(20, 70) } else { rng.range(15, 45) } as usize;
         let mut panicked = false;
@@ -188,6 +190,9 @@ pub fn run(rng: &mut Rng, tier: &str, out: &str) -> Report {
                         }
                         log.push(format!("r{} cursor {} at {} of {} -> {}", r, if after { "after" } else { "before" }, i, if is_text { "t" } else { "l" }, c));
                         taken.push(Taken { cursor: c, obj, is_text, mode: mk(), by: r, at_index: i });
+                        // the heads at which the cursor was taken become a view for the historical resolutions
+                        // (the state in which the cursor's op is the winner of a possibly conflicted element)
+                        cursor_heads.push(reps[r].get_heads());
                         rep.count("cursors_taken");
                     }
                     Ok(Err(e)) => rep.fail(&["C26"], "cursor|get_cursor-failed", &format!("get_cursor at a valid index {} failed: {}", i, e), json!({"log": log})),
@@ -235,6 +240,10 @@ pub fn run(rng: &mut Rng, tier: &str, out: &str) -> Report {
             let mut hsets: Vec<Vec<ChangeHash>> = head_sets.iter().filter(|h| h.iter().all(|x| known.contains(x))).cloned().collect();
             rng.shuffle(&mut hsets);
             hsets.truncate(2);
+            // plus one of the head sets at which a cursor was taken (if this replica knows it)
+            let mut chs: Vec<Vec<ChangeHash>> = cursor_heads.iter().filter(|h| h.iter().all(|x| known.contains(x)) && !hsets.contains(h)).cloned().collect();
+            rng.shuffle(&mut chs);
+            hsets.extend(chs.into_iter().take(1));
             let mut views: Vec<Option<Vec<ChangeHash>>> = vec![None];
             views.extend(hsets.into_iter().map(Some));
             // the operations of each object in each view are computed once per case file
